@@ -9,7 +9,9 @@ name="seed_$(echo "$patch" | sha1sum | cut -c1-10)_$$"
 wt="/root/scratch/$name"
 mkdir -p /root/scratch
 git -C /repo worktree add -q --detach "$wt" HEAD || exit 2
-trap 'git -C /repo worktree remove --force "$wt" >/dev/null 2>&1' EXIT
+# the checks keep their case files / generated Gallina of a scratch tree under build/…_<sha1(path)[:8]>: remove them too
+sfx="$(printf '%s' "$wt" | sha1sum | cut -c1-8)"
+trap 'git -C /repo worktree remove --force "$wt" >/dev/null 2>&1; rm -rf "$ROOT"/build/cases/*_"$sfx" "$ROOT"/build/gen_"$sfx" "$ROOT"/build/props_out_"$sfx" 2>/dev/null' EXIT
 if ! git -C "$wt" apply "$patch"; then echo "PATCH-DOES-NOT-APPLY $patch"; exit 2; fi
 cd "$ROOT"
 for id in "$@"; do
